@@ -54,7 +54,9 @@ class BufSpec(FnSpec):
             self.log.append("join")
             return None
         return {"Inotify": ino_ctor, "DelayedQueue": lambda ex, a, k, n: VOpaque("queue"), "BaseThread.__init__": lambda ex, recv, a, k, n: None, "threading.Thread.start": tstart,
-                "inotify.close": log("inotify.close"), "queue.close": log("queue.close"), "event.set": log("event.set"), "InotifyBuffer.join": join}
+                "inotify.close": log("inotify.close"), "queue.close": log("queue.close"), "event.set": log("event.set"), "InotifyBuffer.join": join,
+                # the flag may already be set on entry (close() after the reader stopped itself, stop() twice, start() after stop())
+                "event.is_set": lambda ex, recv, a, k, n: VBool(z3.BoolVal(True)) if "event.set" in self.log else VBool(ex.fresh_term(z3.BoolSort(), "flag_already_set"))}
 
     def setup(self, ex):
         self.me = VObj("InotifyBuffer")
